@@ -1011,10 +1011,10 @@ Qed.
    (zero-window probe) — as long as it fits the congestion window (which never falls below one MTU) and the
    first-send burst gate lets it pass *)
 Lemma rtx_first_selected s gate c rest :
-  st_infl s = c :: rest -> sc_rtx c = true -> 0 <= sc_len c -> sc_len c <= st_cwnd s ->
+  st_infl s = c :: rest -> sc_rtx c = true -> sc_aband c = false -> 0 <= sc_len c -> sc_len c <= st_cwnd s ->
   gate (sc_len c) = true -> In 0 (rtx_select s gate).
 Proof.
-  intros Ei Hr Hl Hc Hg. unfold rtx_select. rewrite Ei. cbn [rtx_walk]. rewrite Hr. cbn [negb].
+  intros Ei Hr Ha Hl Hc Hg. unfold rtx_select. rewrite Ei. cbn [rtx_walk]. rewrite Hr, Ha. cbn [negb].
   replace (0 =? 0) with true by reflexivity. cbn [andb].
   destruct (st_rwnd s <? sc_len c) eqn:Er.
   - rewrite Hg. cbn. left. reflexivity.
@@ -1035,6 +1035,6 @@ Proof.
   assert (E : st_infl (t3_step s) = c' :: map (fun c0 => if (sc_acked c0 || sc_aband c0)%bool then c0
               else mkSC (sc_sid c0) (sc_len c0) (sc_acked c0) (sc_aband c0) (sc_miss c0) true) rest).
   { unfold t3_step; cbn [st_infl]. rewrite Ei. cbn [map]. rewrite Ha, Hb. reflexivity. }
-  apply (rtx_first_selected (t3_step s) gate c' _ E); unfold c'; cbn [sc_rtx sc_len]; try assumption; try reflexivity.
+  apply (rtx_first_selected (t3_step s) gate c' _ E); unfold c'; cbn [sc_rtx sc_len sc_aband]; try assumption; try reflexivity.
   pose proof (set_cwnd_ge s (st_mtu s)) as [G1 G2]. unfold t3_step; cbn [st_cwnd]. lia.
 Qed.
